@@ -9,6 +9,8 @@ use discret::verif_hooks::configuration::Configuration;
 use discret::verif_hooks::database::authorisation_service::RoomAuthorisations;
 use discret::verif_hooks::database::graph_database::GraphDatabaseService;
 use discret::verif_hooks::database::room_node::RoomNode;
+use discret::verif_hooks::database::node::Node;
+use discret::verif_hooks::database::edge::Edge;
 use discret::verif_hooks::date_utils::verif_clock;
 use discret::verif_hooks::event_service::{Event, EventService};
 use discret::verif_hooks::security::{base64_encode, random32, Ed25519SigningKey};
@@ -223,6 +225,32 @@ fn mutate(rng: &mut Rng, kind: u64, c: &mut RM, old: Option<&RM>, other: &RM, ne
             }
             "row_with_id_of_another_list"
         }
+        21 | 22 => { // a revocation, and an entry authored by the revoked key after (22: at the very date of) the revocation,
+                     // both new to the peer, listed in a random order
+            let cur: Vec<u64> = c.anodes.iter().filter(|u| u.enabled && !c.anodes.iter().any(|v| v.key == u.key && v.date > u.date)).map(|u| u.key).collect();
+            if cur.len() < 2 { return "none"; }
+            let b = *rng.pick(&cur);
+            let a = *cur.iter().find(|k| **k != b).unwrap();
+            let (t1, t2) = (now, if kind == 21 { now + 1000 } else { now });
+            let rev = UN { id: *next, date: t1, author: a, key: b, enabled: false, cd: 0 };
+            let rev_e = ED { src: rid, label: L_ADMIN, dest: *next, date: t1, author: a };
+            *next += 1;
+            let what = rng.below(3);
+            if what == 0 || c.gnodes.is_empty() {
+                let x = UN { id: *next, date: t2, author: b, key: m, enabled: true, cd: 0 };
+                let x_e = ED { src: rid, label: L_ADMIN, dest: *next, date: t2, author: b };
+                *next += 1;
+                if rng.chance(1, 2) { c.anodes.insert(0, x); c.aedges.insert(0, x_e); c.anodes.push(rev); c.aedges.push(rev_e); }
+                else { c.anodes.insert(0, rev); c.aedges.insert(0, rev_e); c.anodes.push(x); c.aedges.push(x_e); }
+            } else {
+                if rng.chance(1, 2) { c.anodes.insert(0, rev); c.aedges.insert(0, rev_e); } else { c.anodes.push(rev); c.aedges.push(rev_e); }
+                let i = rng.below(c.gnodes.len() as u64) as usize; let g = &mut c.gnodes[i];
+                let id = *next; *next += 1;
+                if what == 1 { g.unodes.insert(0, UN { id, date: t2, author: b, key: m, enabled: true, cd: 0 }); g.uedges.insert(0, ED { src: g.id, label: L_USERS, dest: id, date: t2, author: b }); }
+                else { g.rnodes.insert(0, RN { id, date: t2, author: b, ent: 0, s: true, a: true, cd: 0 }); g.redges.insert(0, ED { src: g.id, label: L_RIGHTS, dest: id, date: t2, author: b }); }
+            }
+            if kind == 21 { "revocation_and_later_entry_by_the_revoked_key" } else { "revocation_and_same_date_entry_by_the_revoked_key" }
+        }
         _ => "none",
     }
 }
@@ -280,7 +308,7 @@ fn case_random(rng: &mut Rng, ctx: &mut Ctx, stats: &mut HashMap<String, u64>) -
     let mut tags = vec![];
     if rng.chance(3, 5) {
         for _ in 0..(1 + rng.below(2)) {
-            let kind = rng.below(21);
+            let kind = rng.below(23);
             let t = mutate(rng, kind, &mut cand, old.as_ref(), &other, &mut next, m, now);
             if t != "none" { tags.push(t); }
         }
@@ -413,6 +441,42 @@ fn directed(ctx: &mut Ctx, out: &mut Out) {
     c.anodes.push(UN { id: 10, date: now, author: 6, key: 6, enabled: true, cd: 0 });
     c.aedges.push(ED { src: 1, label: L_ADMIN, dest: 10, date: now, author: 6 });
     list.push(("outsider_admin_row_with_id_of_a_group_row_refused", Some(base.clone()), c));
+    // ---- a revocation and an entry authored by the revoked key afterwards, both new to the peer, in every order
+    // base3: keys 1 and 2 administrators, key 4 user admin of group 10
+    let mut base3 = base.clone();
+    add_u(&mut base3.anodes, &mut base3.aedges, &mut next, 1, L_ADMIN, d0, a, 2, true);
+    { let g = &mut base3.gnodes[0]; add_u(&mut g.anodes, &mut g.aedges, &mut next, 10, L_UADMIN, d0, a, 4, true); }
+    let (t1, t2) = (d0 + 20_000, d0 + 30_000);
+    let rev = UN { id: 920, date: t1, author: a, key: 2, enabled: false, cd: 0 };
+    let rev_e = ED { src: 1, label: L_ADMIN, dest: 920, date: t1, author: a };
+    for (tag, later_date) in [("later", t2), ("same_date", t1)] {
+        let x = UN { id: 921, date: later_date, author: 2, key: 5, enabled: true, cd: 0 };
+        let x_e = ED { src: 1, label: L_ADMIN, dest: 921, date: later_date, author: 2 };
+        for first in [true, false] {
+            let mut c = base3.read_order();
+            if first { c.anodes.insert(0, x.clone()); c.aedges.insert(0, x_e.clone()); c.anodes.push(rev.clone()); c.aedges.push(rev_e.clone()); }
+            else { c.anodes.insert(0, rev.clone()); c.aedges.insert(0, rev_e.clone()); c.anodes.push(x.clone()); c.aedges.push(x_e.clone()); }
+            let name: &'static str = match (tag, first) {
+                ("later", true) => "admin_entry_by_revoked_key_listed_before_the_revocation",
+                ("later", false) => "admin_entry_by_revoked_key_listed_after_the_revocation",
+                (_, true) => "admin_entry_by_revoked_key_same_date_listed_before_the_revocation",
+                _ => "admin_entry_by_revoked_key_same_date_listed_after_the_revocation" };
+            list.push((name, Some(base3.clone()), c));
+        }
+        // a right and a user-admin entry by the revoked administrator (revocation listed last)
+        let mut c = base3.read_order();
+        { let g = &mut c.gnodes[0];
+          g.rnodes.insert(0, RN { id: 922, date: later_date, author: 2, ent: 1, s: true, a: true, cd: 0 }); g.redges.insert(0, ED { src: 10, label: L_RIGHTS, dest: 922, date: later_date, author: 2 });
+          g.anodes.insert(0, UN { id: 923, date: later_date, author: 2, key: 5, enabled: true, cd: 0 }); g.aedges.insert(0, ED { src: 10, label: L_UADMIN, dest: 923, date: later_date, author: 2 }); }
+        c.anodes.push(rev.clone()); c.aedges.push(rev_e.clone());
+        list.push((if tag == "later" { "right_and_uadmin_by_revoked_key_listed_before_the_revocation" } else { "right_and_uadmin_by_revoked_key_same_date_listed_before_the_revocation" }, Some(base3.clone()), c));
+        // a user entry by the revoked user admin, listed before its revocation
+        let mut c = base3.read_order();
+        { let g = &mut c.gnodes[0];
+          g.unodes.insert(0, UN { id: 924, date: later_date, author: 4, key: 5, enabled: true, cd: 0 }); g.uedges.insert(0, ED { src: 10, label: L_USERS, dest: 924, date: later_date, author: 4 });
+          g.anodes.push(UN { id: 925, date: t1, author: a, key: 4, enabled: false, cd: 0 }); g.aedges.push(ED { src: 10, label: L_UADMIN, dest: 925, date: t1, author: a }); }
+        list.push((if tag == "later" { "user_entry_by_revoked_user_admin_listed_before_the_revocation" } else { "user_entry_by_revoked_user_admin_same_date_listed_before_the_revocation" }, Some(base3.clone()), c));
+    }
     for (name, old, cand) in list {
         let (obs, sig_ok) = run_prepare(ctx, old.as_ref(), &cand, &probes, true);
         assert!(sig_ok);
@@ -579,6 +643,116 @@ async fn e2e(ctx: &mut Ctx, out: &mut Out) {
     let _ = std::fs::remove_dir_all(format!("{}/C07/e2e_v", w));
 }
 
+
+// ------------------------------------------------------------------ tampered rows: content that is not the signed one
+fn nodes_mut(n: &mut RoomNode) -> Vec<&mut Node> {
+    let mut v: Vec<&mut Node> = vec![&mut n.node];
+    for u in n.admin_nodes.iter_mut() { v.push(&mut u.node); }
+    for g in n.auth_nodes.iter_mut() {
+        v.push(&mut g.node);
+        for x in g.right_nodes.iter_mut() { v.push(&mut x.node); }
+        for x in g.user_nodes.iter_mut() { v.push(&mut x.node); }
+        for x in g.user_admin_nodes.iter_mut() { v.push(&mut x.node); }
+    }
+    v
+}
+fn edges_mut(n: &mut RoomNode) -> Vec<&mut Edge> {
+    let mut v: Vec<&mut Edge> = vec![];
+    for e in n.admin_edges.iter_mut() { v.push(e); }
+    for e in n.auth_edges.iter_mut() { v.push(e); }
+    for g in n.auth_nodes.iter_mut() {
+        for e in g.right_edges.iter_mut() { v.push(e); }
+        for e in g.user_edges.iter_mut() { v.push(e); }
+        for e in g.user_admin_edges.iter_mut() { v.push(e); }
+    }
+    v
+}
+/// an honest definition is verified first (by the verification service and by room_check); then every copy in which
+/// one field of one row / reference is changed while key and signature are kept, and rows with other content under a
+/// key and signature copied from a genuine row, go through the same verification: refused, each time
+async fn forged(ctx: &mut Ctx, out: &mut Out) {
+    let d0 = BASE;
+    let mut next = 100;
+    let mut r = RM { id: 1, cdate: d0, date: d0, author: 1, aedges: vec![], anodes: vec![], gedges: vec![], gnodes: vec![] };
+    add_u(&mut r.anodes, &mut r.aedges, &mut next, 1, L_ADMIN, d0, 1, 1, true);
+    let mut g = AN { id: 10, date: d0, author: 1, cdate: d0, redges: vec![], rnodes: vec![], uedges: vec![], unodes: vec![], aedges: vec![], anodes: vec![] };
+    add_r(&mut g, &mut next, d0, 1, 0, true, false);
+    add_u(&mut g.unodes, &mut g.uedges, &mut next, 10, L_USERS, d0, 1, 3, true);
+    add_u(&mut g.anodes, &mut g.aedges, &mut next, 10, L_UADMIN, d0, 1, 2, true);
+    r.gedges.push(ED { src: 1, label: L_AUTHS, dest: 10, date: d0, author: 1 });
+    r.gnodes.push(g);
+    let honest = ctx.room_node(&r);
+    let svc = SignatureVerificationService::start(2);
+    svc.verify_room_node(honest.clone()).await.expect("the honest definition verifies");
+    SignatureVerificationService::room_check(honest.clone()).expect("the honest definition verifies");
+    let coq = rm_coq(&r);
+    let other_key = ctx.vkey(3);
+    let m_json = format!("{{\"32\":\"{}\",\"33\":true}}", base64_encode(&ctx.vkey(5)));   // key 5 has no row in the honest definition
+    let nn = nodes_mut(&mut honest.clone()).len();
+    let ne = edges_mut(&mut honest.clone()).len();
+    let mut k = 0u64;
+    let mut push = |out: &mut Out, name: String, c: RoomNode, k: &mut u64, svc: &SignatureVerificationService| {
+        let by_check = SignatureVerificationService::room_check(c.clone()).is_ok();
+        (name, c, by_check, *k, svc.clone())
+    };
+    let mut todo = vec![];
+    for i in 0..nn { for f in 0..8 {
+        let mut c = honest.clone();
+        { let mut v = nodes_mut(&mut c); let n = &mut v[i];
+          match f {
+            0 => n.id[15] ^= 1,
+            1 => n.room_id = Some(uid_of(77)),
+            2 => n.cdate += 1,
+            3 => n.mdate += 1,
+            4 => n._entity.push('x'),
+            5 => n._json = Some(if n._entity == "0.2" { m_json.clone() } else { "{\"32\":\"zz\"}".to_string() }),
+            6 => n._binary = Some(vec![1]),
+            _ => n.verifying_key = other_key.clone(),
+          } }
+        todo.push(push(out, format!("row_{}_field_{}", i, ["id", "room_id", "cdate", "mdate", "entity", "json", "binary", "verifying_key"][f]), c, &mut k, &svc));
+        k += 1;
+    } }
+    for i in 0..ne { for f in 0..6 {
+        let mut c = honest.clone();
+        { let mut v = edges_mut(&mut c); let e = &mut v[i];
+          match f {
+            0 => e.src[15] ^= 1,
+            1 => e.src_entity = "0.9".to_string(),
+            2 => e.label = "36".to_string(),
+            3 => e.dest[15] ^= 1,
+            4 => e.cdate += 1,
+            _ => e.verifying_key = other_key.clone(),
+          } }
+        todo.push(push(out, format!("reference_{}_field_{}", i, ["src", "src_entity", "label", "dest", "cdate", "verifying_key"][f]), c, &mut k, &svc));
+        k += 1;
+    } }
+    // other content under a key and signature copied from a genuine row: "key 3 is administrator", attributed to key 1
+    {
+        let mut c = honest.clone();
+        let mut fake = c.admin_nodes[0].clone();
+        fake.node.id = uid_of(950); fake.node._json = Some(m_json.clone()); fake.node.mdate += 5000; fake.node.cdate += 5000;
+        let mut fe = c.admin_edges[0].clone();
+        fe.dest = uid_of(950); fe.cdate += 5000;
+        c.admin_nodes.push(fake); c.admin_edges.push(fe);
+        todo.push(push(out, "new_admin_row_and_reference_under_copied_key_and_signature".to_string(), c, &mut k, &svc));
+        k += 1;
+        let mut c = honest.clone();
+        let g = &mut c.auth_nodes[0];
+        let mut fake = g.right_nodes[0].clone();
+        fake.node.id = uid_of(951); fake.node._json = Some("{\"32\":\"*\",\"33\":true,\"34\":true}".to_string()); fake.node.mdate += 5000; fake.node.cdate += 5000;
+        let mut fe = g.right_edges[0].clone();
+        fe.dest = uid_of(951); fe.cdate += 5000;
+        g.right_nodes.push(fake); g.right_edges.push(fe);
+        todo.push(push(out, "new_right_row_and_reference_under_copied_key_and_signature".to_string(), c, &mut k, &svc));
+    }
+    for (name, c, by_check, k, svc) in todo {
+        let by_service = svc.verify_room_node(c).await.is_ok();
+        let obs = vec![if by_check || by_service { 201 } else { 200 }];
+        out.push(Case { kind: "forged".into(), coq: format!("CForged {} {}", coq, gn(k)),
+            meta: json!({"tampered": name, "accepted_by_room_check": by_check, "accepted_by_verification_service": by_service}), obs });
+    }
+}
+
 #[tokio::main(flavor = "multi_thread")]
 async fn main() {
     let mut out = Out::create();
@@ -587,6 +761,7 @@ async fn main() {
     let mut stats: HashMap<String, u64> = HashMap::new();
     directed(&mut ctx, &mut out);
     e2e(&mut ctx, &mut out).await;
+    forged(&mut ctx, &mut out).await;
     let n = scale(600, 6000);
     for _ in 0..n {
         let mut r = rng.fork();
